@@ -12,6 +12,8 @@ import json, os, re, collections
 import vf
 
 PARTS = ["Murmur3Partitioner", "OrderedPartitioner", "RandomPartitioner"]
+SPREADS = ["compact", "full", "edge", "zero"]
+POLS = [b + s_ + n for b in ("rr", "dc", "rack") for s_ in ("", "-shuffle") for n in ("", "-nonlocal")]
 DEV_WORKERS = int(os.environ.get("VERIF_TLC_WORKERS", "0")) or None   # None: all cores (the exhaustive generator pass)
 VAL_WORKERS = DEV_WORKERS or min(8, vf.NCPU)                             # vector validation passes
 
@@ -51,8 +53,13 @@ def exact_agreement(case, vec):
     for e in vec["look"]:
         if e["hosts"] != exp[idx[e["t"]] - 1]:
             return False
-    for e in vec["map"]:
+    for e in vec["map"] + vec["map2"]:
         if e["t"] not in pos or e["hosts"] != exp[pos[e["t"]]]:
+            return False
+    if vec["pol"] and len(vec["look2"]) != len(look):
+        return False
+    for e in vec["look2"]:
+        if e["hosts"] != exp[idx[e["t"]] - 1]:
             return False
     return True
 
@@ -67,6 +74,13 @@ def key_of(v):
             return "lookup-panic"
         return st + "-panic-" + v["pclass"]
     mk, lk = set(v["mapkinds"]), set(v["lookkinds"])
+    if not mk and not lk:
+        # built right; wrong in the map a token aware policy holds after routing queries
+        k2 = set(v["map2kinds"]) | set(v["look2kinds"])
+        for k in ("duplicate-replica", "missing-replica", "foreign-replica", "primary-not-first", "size-bound", "foreign-token"):
+            if k in k2:
+                return st + "-after-picks-" + ("wrong-set" if k in ("missing-replica", "foreign-replica") else k)
+        return st + "-after-picks-" + sorted(k2)[0]
     if not mk and lk:
         # the replica map is right everywhere, the lookup picked the wrong entry
         return "lookup-mismatch"
@@ -111,11 +125,13 @@ def report(ctx, verdicts, vecs_by_key, origin):
     for key, ks in groups.items():
         first = verdicts[ks[0]]
         vec = vecs_by_key[ks[0]]
-        what = "%s: %d case(s), e.g. ring=%s dc=%s rack=%s down=%s %s %s -> %s" % (
-            origin, len(ks), vec["ring"], vec["dc"], vec["rack"], vec.get("down", []), vec["strat"],
+        smp = first["sample"] if first["sample"]["pos"] or not first.get("sample2") else first["sample2"]
+        what = "%s: %d case(s), e.g. %s tokens %s ring=%s dc=%s rack=%s down=%s%s %s %s -> %s" % (
+            origin, len(ks), vec["part"], vec.get("spread") or "compact", vec["ring"], vec["dc"], vec["rack"], vec.get("down", []),
+            (" via TokenAwareHostPolicy(%s) after picks" % vec["pol"]) if vec.get("pol") else "", vec["strat"],
             dict(zip(vec["rfdc"], vec["rfn"])),
             ("panic: " + vec["pmsg"]) if vec["pclass"] != "none" else
-            "token %s: driver %s, Cassandra %s" % (first["sample"]["t"], first["sample"]["got"], first["sample"]["ref"]))
+            "token %s: driver %s, Cassandra %s" % (smp["t"], smp["got"], smp["ref"]))
         ctx.violation(key, what, dict(count=len(ks), verdict=first, vector=vec,
                                       more=[vecs_by_key[k] for k in ks[1:3]]))
     return groups
@@ -133,7 +149,7 @@ def replay(ctx):
         raise vf.Inconclusive("no vectors in %s" % ctx.replay)
     cases = [dict(id=i + 1, ring=v["ring"], dc=v["dc"], rack=v["rack"], strat=v["strat"], rfdc=v["rfdc"], rfn=v["rfn"],
                   tokens=v["tokens"], look=[[e["t"]] for e in v["look"]] or [[t] for t in v["tokens"]], form=v["form"],
-                  parts=[v["part"]], down=v.get("down", [])) for i, v in enumerate(vecs)]
+                  parts=[v["part"]], down=v.get("down", []), spread=v.get("spread", ""), pol=v.get("pol", "")) for i, v in enumerate(vecs)]
     cp, rp = os.path.join(ctx.tmp, "cases.ndjson"), os.path.join(ctx.tmp, "results.ndjson")
     vf.write_ndjson(cp, cases)
     binary = vf.build_gotest(ctx, ".", harness_dirs("c10"))
@@ -165,6 +181,11 @@ def run(ctx):
         c["parts"] = PARTS if len(c["ring"]) <= 3 else [PARTS[(i + seed) % 3]]
         # ... and liveness: in every third case one node is DOWN while the ring and the replica map are built
         c["down"] = [1 + ((i // 3 + seed) % len(c["dc"]))] if (i + seed) % 3 == 0 else []
+        # ... the layout of the tokens in the partitioner's token space (whole range, extremes, around zero)
+        c["spread"] = SPREADS[(i // 2 + seed) % len(SPREADS)]
+        # ... and, every fourth case, the map is additionally built by a real token aware policy (every
+        # fallback / option combination in turn) and read again after queries were routed through it
+        c["pol"] = POLS[(i // 4 + seed) % len(POLS)] if (i + seed) % 4 == 1 else ""
     cp = os.path.join(ctx.tmp, "cases.ndjson")
     vf.write_ndjson(cp, [{k: v for k, v in c.items() if k != "exp"} for c in cases])
     ctx.log("generated %d cases (%d rings x layouts)" % (len(cases), nlayouts))
